@@ -8,7 +8,7 @@ From TS Require Proofs.C10Lex Proofs.C10_TS Proofs.C10_TSFile Proofs.C10_KT Proo
 From TS Require Import Spec.C10TsGrammar.
 From TS Require Proofs.C10_TSGrammarTok Proofs.C10_TSGrammarParse Proofs.C10_TSGrammar Proofs.C10_TSGrammarFile.
 From TS Require Import Spec.C10KtGrammar.
-From TS Require Proofs.C10_KTGrammarTok Proofs.C10_KTGrammarParse Proofs.C10_KTGrammar Proofs.C10_KTGrammarFile.
+From TS Require Proofs.C10_KTGrammarTok Proofs.C10_KTGrammarParse Proofs.C10_KTGrammar Proofs.C10_KTGrammarFile Proofs.C10_KTGrammarMulti.
 From TS Require Import Model.MultiFile Spec.C10MultiSpec.
 From TS Require Model.Writer Proofs.C10Multi Proofs.C10MultiWitness.
 From TS Require Props.C10.
@@ -332,3 +332,23 @@ Goal Proofs.C10_KT.c10_kt_cfg_ok Proofs.C10_KTGrammarFile.kg_cfg = true /\ Proof
   c10_kt_recognise (lit "@SerialName(""a) object A" ++ nl) = None.
 Proof. exact Props.C10.C10_grammar_kotlin_witness. Qed.
 Print Assumptions Props.C10.C10_grammar_kotlin_witness.
+Goal forall (uc : unicode) (cfg : kt_config) (c : str) (im : scoped) (pd : parsed) (text : str),
+    Proofs.C10_KT.c10_kt_cfg_ok cfg = true -> Proofs.C10_KTGrammarFile.c10_ktg_cfg_ok cfg -> kt_package cfg <> [] ->
+    dom_C10 CKT pd = true -> Proofs.C10_KTGrammarFile.c10_ktg_dom pd ->
+    Proofs.C10_KTGrammarTok.c10k_ident_ok c = true -> Proofs.C10_KTGrammarMulti.c10_ktg_imports_ok im ->
+    kt_generate_multi uc cfg c im pd = Ok text ->
+    exists n : nat, c10_kt_recognise text = Some n /\ (List.length (items_of pd) <= n)%nat.
+Proof. exact Props.C10.C10_grammar_kotlin_multi. Qed.
+Print Assumptions Props.C10.C10_grammar_kotlin_multi.
+Goal Proofs.C10_KTGrammarTok.c10k_ident_ok (lit "app_core") = true /\
+  Proofs.C10_KTGrammarMulti.c10_ktg_imports_ok Proofs.C10_KTGrammarMulti.kgm_imports /\
+  kt_package Proofs.C10_KTGrammarFile.kg_cfg <> [] /\
+  kt_generate_multi uc_exec Proofs.C10_KTGrammarFile.kg_cfg (lit "app_core") Proofs.C10_KTGrammarMulti.kgm_imports Proofs.C10_KTGrammarFile.kg_prog
+    = Ok Proofs.C10_KTGrammarMulti.kgm_text /\
+  c10_kt_recognise Proofs.C10_KTGrammarMulti.kgm_text = Some 7%nat /\
+  contains_sub (lit "package com.agilebits.onepassword.app_core") Proofs.C10_KTGrammarMulti.kgm_text = true /\
+  contains_sub (lit "import com.agilebits.onepassword.lib_crate.Node") Proofs.C10_KTGrammarMulti.kgm_text = true /\
+  c10_kt_recognise (lit "package com.p.3d_tools" ++ nl) = None /\
+  c10_kt_recognise (lit "package com.p.lib" ++ nl ++ lit "import com.p.lib-crate.Item" ++ nl) = None.
+Proof. exact Props.C10.C10_grammar_kotlin_multi_witness. Qed.
+Print Assumptions Props.C10.C10_grammar_kotlin_multi_witness.
